@@ -63,7 +63,7 @@ func runC16(c *Ctx, r *Report) {
 	checkSessionPipesDrained(c, r, "C16/pipes-drained")
 	r.Rule("C16/read-prefix", "Read allocates the requested size, performs one underlying read into it and returns exactly buffer[0:n]", 3)
 	r.Rule("C16/write-forward", "Write hands the caller's slice unchanged to the underlying writer and returns its error", 3)
-	r.Rule("C16/wrapper", "the Transport wrapper forwards the configured read size, the same slice and the implementation's results", 4)
+	r.Rule("C16/wrapper", "the Transport wrapper forwards the configured read size, the same slice and the implementation's results", 3)
 	r.Rule("C16/lock-shape", "implementation reads hold the read lock; the forced close does not; the channel's timeout edge is the forced one", 3)
 	r.Rule("C16/close-no-wait", "Close of each built-in transport calls no wait-for-peer API (Wait, Read, io.Copy ...): closing is what releases a blocked read", 3)
 	r.Rule("C16/system-keepalive", "every ssh argument list of the system transport passes -o ServerAliveInterval=<socket timeout>: the child's keepalive is what releases a pty read when the peer vanishes", 1)
@@ -227,8 +227,8 @@ func checkTransportWrapper(c *Ctx, r *Report) {
 	ReadN := c.LookupFunc("transport", "Transport", "ReadN")
 	Write := c.LookupFunc("transport", "Transport", "Write")
 	sizeF := c.LookupField("transport", "Args", "ReadSize")
-	if read == nil || Read == nil || ReadN == nil || Write == nil || sizeF == nil {
-		r.Anchor(rule, "(*transport.Transport).read/Read/ReadN/Write / Args.ReadSize")
+	if Read == nil || ReadN == nil || Write == nil || sizeF == nil {
+		r.Anchor(rule, "(*transport.Transport).Read/ReadN/Write / Args.ReadSize")
 		return
 	}
 	// Read -> read(Args.ReadSize), result forwarded
@@ -261,25 +261,44 @@ func checkTransportWrapper(c *Ctx, r *Report) {
 		})
 		return ok
 	}
-	if cs := staticCallsTo(Read, read); len(cs) == 1 {
-		r.Check(isFieldLoadOf(cs[0].Common().Args[1], sizeF) && forwards(Read, cs[0]), rule, "Transport.Read", c.Pos(Read.Pos()), "read(Args.ReadSize), results forwarded",
+	// the size handed to the implementation by fn: through the shared helper, or by invoking Impl.Read itself
+	sizeGiven := func(fn *ssa.Function) (ssa.Value, ssa.Instruction, int) {
+		var size ssa.Value
+		var at ssa.Instruction
+		n := 0
+		for _, ci := range callInstrs(fn) {
+			switch {
+			case read != nil && ci.Common().StaticCallee() == read:
+				size, at = ci.Common().Args[1], ci
+				n++
+			case ci.Common().IsInvoke() && ci.Common().Method.Name() == "Read" && len(ci.Common().Args) == 1:
+				size, at = ci.Common().Args[0], ci
+				n++
+			}
+		}
+		return size, at, n
+	}
+	if size, at, n := sizeGiven(Read); n == 1 {
+		r.Check(isFieldLoadOf(size, sizeF) && forwards(Read, at), rule, "Transport.Read", c.Pos(Read.Pos()), "read(Args.ReadSize), results forwarded",
 			"Transport.Read does not read the configured read size or alters the result")
 	} else {
 		r.Bad(rule, "Transport.Read", c.Pos(Read.Pos()), "Transport.Read does not delegate to read exactly once")
 	}
-	if cs := staticCallsTo(ReadN, read); len(cs) == 1 {
-		r.Check(cs[0].Common().Args[1] == ssa.Value(ReadN.Params[1]) && forwards(ReadN, cs[0]), rule, "Transport.ReadN", c.Pos(ReadN.Pos()), "read(n), results forwarded", "Transport.ReadN does not read n bytes or alters the result")
+	if size, at, n := sizeGiven(ReadN); n == 1 {
+		r.Check(size == ssa.Value(ReadN.Params[1]) && forwards(ReadN, at), rule, "Transport.ReadN", c.Pos(ReadN.Pos()), "read(n), results forwarded", "Transport.ReadN does not read n bytes or alters the result")
 	} else {
 		r.Bad(rule, "Transport.ReadN", c.Pos(ReadN.Pos()), "Transport.ReadN does not delegate to read exactly once")
 	}
 	// read -> Impl.Read(n)
-	okRead := false
-	for _, ci := range callInstrs(read) {
-		if ci.Common().IsInvoke() && ci.Common().Method.Name() == "Read" {
-			okRead = ci.Common().Args[0] == ssa.Value(read.Params[1]) && forwards(read, ci)
+	if read != nil {
+		okRead := false
+		for _, ci := range callInstrs(read) {
+			if ci.Common().IsInvoke() && ci.Common().Method.Name() == "Read" {
+				okRead = ci.Common().Args[0] == ssa.Value(read.Params[1]) && forwards(read, ci)
+			}
 		}
+		r.Check(okRead, rule, "Transport.read", c.Pos(read.Pos()), "Impl.Read(n), results forwarded", "Transport.read does not forward the size to the implementation or alters what it returns")
 	}
-	r.Check(okRead, rule, "Transport.read", c.Pos(read.Pos()), "Impl.Read(n), results forwarded", "Transport.read does not forward the size to the implementation or alters what it returns")
 	okWrite := false
 	for _, ci := range callInstrs(Write) {
 		if ci.Common().IsInvoke() && ci.Common().Method.Name() == "Write" {
